@@ -67,6 +67,27 @@ def check_linear_fit(F, run, tier):
                   sample="linear data reproduced")
     except (sym.Unsupported, vecint.IndexPanic) as e:
         run.broken("R17.1", dp, "reproduces-line", where, str(e))
+    # complex scalars (the function is generic over ComplexField): the closed form is an algebraic identity, so data on a complex line over abscissae off the
+    # real axis are reproduced, and the (bilinear) normal equations hold; a |x|² in place of x² is invisible on the real axis
+    kc, cc = PI.csymbols("k", 1)[0], PI.csymbols("c", 1)[0]
+    xc = [sp.Rational(-2) + sp.I, sp.Rational(1, 3) - 2 * sp.I, sp.Rational(1, 2) + sp.I / 2, sp.Rational(7, 5) * sp.I]
+    try:
+        v, _ = PI.call(F, b, [list(xc), [sp.expand(kc * x + cc) for x in xc]], seconds=60)
+        cs = PI.coeffs(v.args[0]) if isinstance(v, sym.Variant) and v.name == "Ok" else None
+        run.check(cs is not None and len(cs) == 2 and PI.timed(lambda: sym.is_zero(sp.expand(cs[0] - cc)) and sym.is_zero(sp.expand(cs[1] - kc)), 60, False), "R17.1", dp, "reproduces-line:complex", where,
+                  "data on a complex line k·x + c over abscissae off the real axis are fitted by %s" % ([str(sp.simplify(t))[:60] for t in cs] if cs else v,), sample="complex linear data reproduced")
+    except (sym.Unsupported, vecint.IndexPanic) as e:
+        run.broken("R17.1", dp, "reproduces-line:complex", where, str(e))
+    xs, ys = PI.csymbols("x", 3), PI.csymbols("y", 3)
+    try:
+        v, _ = PI.call(F, b, [list(xs), list(ys)], seconds=90)
+        cs = PI.coeffs(v.args[0]) if isinstance(v, sym.Variant) and v.name == "Ok" else None
+        if run.check(cs is not None and len(cs) == 2, "R17.1", dp, "result:complex,m=3", where, "linear_fit on complex data returns %r" % (v,)):
+            r = [y - cs[1] * x - cs[0] for x, y in zip(xs, ys)]
+            run.check(PI.timed(lambda: sym.is_zero(sp.simplify(sum(r))) and sym.is_zero(sp.simplify(sum(x * ri for x, ri in zip(xs, r)))), 90, False), "R17.1", dp, "normal-equations:complex,m=3", where,
+                      "with complex data the residuals of the returned line are not orthogonal to 1 and x (Σ r = 0, Σ x·r = 0)", sample="complex m=3: normal equations")
+    except (sym.Unsupported, vecint.IndexPanic) as e:
+        run.broken("R17.1", dp, "complex,m=3", where, str(e))
     try:
         v, _ = PI.call(F, b, [PI.symbols("x", 3), PI.symbols("y", 2)], seconds=30)
         run.check(isinstance(v, sym.Variant) and v.name == "Err", "R17.1", dp, "length-mismatch", where, "mismatched lengths return %r" % (v,), sample="linear_fit(3 xs, 2 ys) = Err")
